@@ -46,7 +46,7 @@ ASSUMPTIONS = [
 ]
 SAMPLE_EVERY = 1201
 CASE_WALL_S = 60
-STEP_BUDGET = 300000
+STEP_BUDGET = 60000
 MAX_SETTLE_ITERS = 3000
 
 CACHES = ("off", "mem-md5", "mem-hash", "fs-md5", "fs-hash")
@@ -234,7 +234,7 @@ def setup_worker():
                 ctl.gates[k] = fut
                 ctl.max_in_flight = max(ctl.max_in_flight, len(ctl.pending_gates()))
                 await fut
-            else:
+            elif not ctl.auto:
                 ctl.instant_calls += 1
             return [f(d) for d in docs]
 
@@ -284,9 +284,47 @@ def setup_worker():
 
     import asyncio.locks as locks
 
-    steps.install([basic, cache, locks])
+    _install_steps([basic, cache, locks], steps)
     _W.update(asyncio=asyncio, basic=basic, cache=cache, IndexItem=IndexItem, VLoop=VLoop, req_var=req_var,
               RecordingIndex=RecordingIndex, steps=steps)
+
+
+# Logical step budget.  vp.steps raises only once per case; a mutant that makes two
+# requests spin without yielding would hang on the second one, so this monitor uses
+# its own sys.monitoring tool id with a callback that keeps raising while over budget.
+_ST = {"count": 0, "armed": False, "blown": False}
+_TOOL = 4
+
+
+def _install_steps(modules, steps):
+    import sys
+
+    mon = sys.monitoring
+    mon.use_tool_id(_TOOL, "vp-c19-steps")
+
+    def on_start(code, offset):
+        _ST["count"] += 1
+        if _ST["armed"] and _ST["count"] > STEP_BUDGET:
+            _ST["blown"] = True
+            raise steps.StepBudgetExceeded("logical step budget %d exceeded" % STEP_BUDGET)
+
+    mon.register_callback(_TOOL, mon.events.PY_START, on_start)
+    n = 0
+    for m in modules:
+        for co in steps._code_objects(m):
+            mon.set_local_events(_TOOL, co, mon.events.PY_START)
+            n += 1
+    if n < 20:
+        raise RuntimeError("step counter instrumented only %d code objects" % n)
+
+
+def _steps_start():
+    _ST.update(count=0, armed=True, blown=False)
+
+
+def _steps_stop():
+    _ST["armed"] = False
+    return _ST["count"]
 
 
 class Ctl:
@@ -371,7 +409,7 @@ def run_case(case):
     tasks = {}
     problem = None  # (mechanism, detail)
     idx = None
-    steps.start(STEP_BUDGET)
+    _steps_start()
     try:
         idx = W["basic"].BasicEmbeddingsIndex(
             embedding_model="m", embedding_engine="verif_gated_c19", cache_config=_cache_cfg(case["cache"], tmpdir),
@@ -444,8 +482,8 @@ def run_case(case):
             else:
                 ctl.gates[payload].set_result(None)
             drv.settle()
-            if steps.count() > STEP_BUDGET:
-                problem = ("no-progress-spin", {"steps": steps.count()})
+            if _ST["blown"]:
+                problem = ("no-progress-spin", {"steps": _ST["count"]})
         # ---- quiescence: nothing enabled, loop idle
         if problem is None:
             pend = [i for i, t in tasks.items() if not t.done()]
@@ -469,7 +507,7 @@ def run_case(case):
     except Violation as v:
         problem = (str(v), {"iterations_without_idle": MAX_SETTLE_ITERS})
     finally:
-        used = steps.stop()
+        used = _steps_stop()
         for t in list(tasks.values()) + list(asyncio.all_tasks(loop)):
             if not t.done():
                 t.cancel()
